@@ -332,6 +332,16 @@ def big_ldpc(rng, ks, finish=True):
         sub = [e for e in range(p.n) if rng.random() < keep]
         rng.shuffle(sub)
         execs.append(gen.decode_exec(p, sub, api="recv", finish=finish, cb=rng.choice([None, "buf"]), probe="end"))
+        # the same k with a handful of repair symbols: every equation holds hundreds of symbols (beyond 255, where a
+        # per-equation counter of one byte would wrap).  Once with a few source symbols lost and all repair symbols
+        # received, once with every other source symbol and no repair symbol (nothing can be rebuilt)
+        r2 = rng.randint(3, 7)
+        p2 = P(3, k, r2, N1=3, seed=rng.randint(1, 10 ** 9), length=rng.choice([1, 4, 9]), payload="rnd")
+        lost = set(rng.sample(range(k), rng.randint(1, 3)))
+        sub2 = [e for e in range(p2.n) if e not in lost]
+        rng.shuffle(sub2)
+        execs.append(gen.decode_exec(p2, sub2, api="recv", finish=finish, probe="end"))
+        execs.append(gen.decode_exec(p2, [e for e in range(k) if e % 2 == 0], api="recv", finish=False, probe="end"))
     return execs
 
 
